@@ -1,76 +1,16 @@
 #!/usr/bin/env python3
 """C06 — outbound SMTP DATA cannot be terminated or hijacked by message content."""
-import os, sys, random
+import os, sys
 sys.path.insert(0, os.path.join(os.path.dirname(os.path.abspath(__file__)), "..", "tools"))
-import nqlib
-from nqlib import Check, run_pipeline, parse_driver_output, standard_verdict, driver_path, NCPU, VERIF
+from nqlib import run_standard
 
+RULE = ("every byte string over {CR,LF,'.','a'} up to length %s (exhaustive; read chunkings full/1/2/3) plus seeded random "
+        "messages up to 64 KiB, run through the real qmail-remote.c blast() (ASan+UBSan build of the working tree) and the Lean "
+        "model rblast; the oracle (terminator once, no bare LF, stuffed lines, rfcDecode(out)=canon(in)) is evaluated on the "
+        "implementation's output; non-trivial = distinct input containing a CR or a dot at a line start")
 
-def main():
-    c = Check("C06")
-    ok = c.proofs("Nq.Props.C06", drivers=["drv_c06"])
-    s = c.build_repo()
-    stats, samples, disagree, oracle, errors = {}, [], [], [], []
-    if s.ok and c.driver_ok:
-        try:
-            h = s.cc(os.path.join(VERIF, "harness/c06_blast.c"), os.path.join(s.dir, "h_c06"), link_like="qmail-remote")
-            drv = driver_path("drv_c06")
-            maxlen, nrand = (9, 4000) if c.tier == "quick" else (12, 60000)
-            cmds = []
-            corpus = os.path.join(VERIF, "corpus", "C06.txt")
-            if c.replay:
-                cmds.append("%s - < %s" % (h, c.replay))
-            else:
-                if os.path.exists(corpus):
-                    cmds.append("%s - < %s" % (h, corpus))
-                cmds += ["%s %d %d %d %d %d" % (h, maxlen, nrand, c.seed, i, NCPU) for i in range(NCPU)]
-            outs = run_pipeline(cmds, drv)
-            stats, samples, disagree, oracle, errors = parse_driver_output(outs)
-
-            def neighbourhood(dis):
-                rnd = random.Random(c.seed)
-                cases = set()
-                for d in dis[:50]:
-                    hx = nqlib.kv(d).get("in", "-")
-                    b = bytearray.fromhex("" if hx == "-" else hx)
-                    for _ in range(400):
-                        m = bytearray(b)
-                        for _ in range(rnd.randint(1, 3)):
-                            op = rnd.randint(0, 2)
-                            pos = rnd.randint(0, len(m))
-                            ch = rnd.choice(b"\r\n.a")
-                            if op == 0: m.insert(pos, ch)
-                            elif op == 1 and m: del m[min(pos, len(m) - 1)]
-                            elif m: m[min(pos, len(m) - 1)] = ch
-                        for ck in (0, 1, 2, 3):
-                            cases.add("%d %s" % (ck, m.hex() or "-"))
-                tf = os.path.join(s.dir, "nb.txt")
-                open(tf, "w").write("\n".join(sorted(cases)) + "\n")
-                o2 = run_pipeline(["%s - < %s" % (h, tf)], drv)
-                st2, _, _, or2, _ = parse_driver_output(o2)
-                c.cov["search_cases"] = st2.get("cases", 0)
-                return nqlib.shortest(or2) if or2 else None
-        except Exception as ex:
-            errors.append(str(ex))
-            neighbourhood = None
-    else:
-        errors.append("build failed: " + "\n".join(c.notes)[-3000:])
-        neighbourhood = None
-    c.cov["evaluations"] = int(stats.get("cases", 0))
-    c.cov["distinct_nontrivial"] = int(stats.get("distinct_nontrivial", 0))
-    c.cov["traces_validated_against_impl"] = int(stats.get("cases", 0)) - int(stats.get("disagree", 0))
-    c.cov["rule"] = ("every byte string over {CR,LF,'.','a'} up to length %s (exhaustive; read chunkings full/1/2/3) plus seeded random "
-                     "messages up to 64 KiB, run through the real qmail-remote.c blast() (ASan+UBSan) and the Lean model rblast; "
-                     "non-trivial = distinct input containing a CR or a dot at a line start" % ("9" if c.tier == "quick" else "12"))
-    c.cov["exhaustive"] = False
-    c.cov["samples"] = samples[:6]
-    c.cov["input_distribution"] = {k: v for k, v in stats.items() if k.startswith(("chunk", "status"))}
-    c.assumptions += ["substdio buffering is transparent to the byte stream (checked by running several read chunkings)",
-                      "the SMTP peer splits lines at CR LF (RFC 5321)"]
-    standard_verdict(c, ok, stats, disagree, oracle, errors, "rblast (Nq/SmtpOut.lean) vs qmail-remote.c blast()",
-                     neighbourhood, replay_hint="./check C06 --replay <file with '<chunk> <hex message>' lines>")
-    c.finish()
-
-
-if __name__ == "__main__":
-    main()
+run_standard("C06", "Nq.Props.C06", "drv_c06", "harness/c06_blast.c", "qmail-remote", [],
+             "9 4000", "12 60000", {"quick": RULE % 9, "thorough": RULE % 12},
+             "rblast (Nq/SmtpOut.lean) vs qmail-remote.c blast()", alphabet=b"\r\n.a",
+             assumptions=["substdio buffering is transparent to the byte stream (several read chunkings are run)",
+                          "the SMTP peer splits lines at CR LF (RFC 5321)"])
